@@ -9,7 +9,10 @@ statement  With exporterhelper.WithStart / WithShutdown the wrapped exporter is 
 quantifier for every queue / batch / retry configuration, every moment of the shutdown request, every pattern of backend outcomes
            (the script space of C03)
 anchors    exporter/exporterhelper/internal/base_exporter.go Start, Shutdown; exporter/exporterhelper/common.go WithStart, WithShutdown
-not covered the first half is only exercised by sends that follow Start (no restart over a filled persistent queue in this driver)
+           Persistent queue: what the first incarnation left "durably stored for the next start" is exported by a second
+           incarnation over the same storage (started by the driver after the script, backend accepting everything), exactly
+           that and nothing else, only after the user's (slow) start function of the second incarnation has returned, and it is
+           deleted from storage once exported.
 
 Spec: specs/ExporterHelper (XHMonitor clause ExportWithinUserLifetime; scripts from ExporterHelper.tla / XHGen as in C03).
 Binding: harness/exporter/xs (the user's start / shutdown functions are recorded in the same event log as the export calls).
@@ -37,7 +40,12 @@ def run(c):
         return
     if not any('"ev":"ushutdown_begin"' in l for l in lines) or not any('"ev":"ustart_end"' in l for l in lines):
         raise vlib.Inconclusive("the driver did not record the user's start / shutdown functions")
-    verdicts = [v for v in xslib.monitor(c, lines, "main") if v["clause"] == "ExportWithinUserLifetime"]
+    EXTRA = ("ExportWithinUserLifetime", "StoredIsRedelivered", "RedeliveredWasStored", "RedeliveredIsDeleted")
+    verdicts = [v for v in xslib.monitor(c, lines, "main") if v["clause"] in EXTRA]
+    nrestart = sum(1 for l in lines if '"ev":"restart"' in l and '"stored":[]' not in l)
+    c.extra["restarts_with_stored_requests"] = nrestart
+    if not c.replay and nrestart == 0 and not verdicts:
+        raise vlib.Inconclusive("no script left anything stored for the second incarnation: the restart clauses were not exercised")
     byid = {s["id"]: s for s in scripts}
     reported = 0
     for v in verdicts[:20]:
@@ -46,7 +54,7 @@ def run(c):
         if not [w for w in xslib.monitor(c, l2, "confirm") if w["clause"] == v["clause"]]:
             c.extra["unconfirmed"] = c.extra.get("unconfirmed", 0) + 1
             continue
-        c.violation("ExportWithinUserLifetime violated: %s; script: %s" % (v["detail"], xslib.fmt(s)),
+        c.violation("%s violated: %s; script: %s" % (v["clause"], v["detail"], xslib.fmt(s)),
                     replay_obj={k: s[k] for k in ("cfg", "steps", "outcomes")})
         reported += 1
         if reported >= 5:
